@@ -29,7 +29,7 @@ the corresponding CQL or Cassandra type strings.
 
 from __future__ import absolute_import  # to enable import io from stdlib
 import ast
-from binascii import unhexlify
+from binascii import hexlify, unhexlify
 import calendar
 from collections import namedtuple
 from decimal import Decimal
@@ -1025,6 +1025,16 @@ class UserType(TupleType):
         return "frozen<%s>" % (cls.typename,)
 
     @classmethod
+    def cass_parameterized_type(cls, full=False):
+        if not cls.subtypes:
+            return super(UserType, cls).cass_parameterized_type(full=full)
+        # keyspace, hex type name, then hex field name:type pairs (what apply_parameters reads)
+        params = [cls.keyspace, hexlify(cls.typename.encode('utf-8')).decode('ascii')]
+        params.extend('%s:%s' % (hexlify(name.encode('utf-8')).decode('ascii'), styp.cass_parameterized_type(full=full))
+                      for name, styp in zip(cls.fieldnames, cls.subtypes))
+        return '%s(%s)' % (cls.cass_parameterized_type_with((), full=full), ','.join(params))
+
+    @classmethod
     def deserialize_safe(cls, byts, protocol_version):
         values = super(UserType, cls).deserialize_safe(byts, protocol_version)
         if cls.mapped_class:
@@ -1454,7 +1464,7 @@ class VectorType(_CassandraType):
         assert len(params) == 2
         subtype = lookup_casstype(params[0])
         vsize = params[1]
-        return type('%s(%s)' % (cls.cass_parameterized_type_with([]), vsize), (cls,), {'vector_size': vsize, 'subtype': subtype})
+        return type('%s(%s)' % (cls.cass_parameterized_type_with([]), vsize), (cls,), {'vector_size': vsize, 'subtype': subtype, 'cassname': cls.cassname})
 
     @classmethod
     def deserialize(cls, byts, protocol_version):
@@ -1505,3 +1515,10 @@ class VectorType(_CassandraType):
     @classmethod
     def cql_parameterized_type(cls):
         return "%s<%s, %s>" % (cls.typename, cls.subtype.cql_parameterized_type(), cls.vector_size)
+
+    @classmethod
+    def cass_parameterized_type(cls, full=False):
+        if cls.subtype is None:
+            return super(VectorType, cls).cass_parameterized_type(full=full)
+        return '%s(%s, %s)' % (cls.cass_parameterized_type_with((), full=full),
+                               cls.subtype.cass_parameterized_type(full=full), cls.vector_size)
